@@ -51,6 +51,11 @@ def work(item):
     kind, arg, max_dec, max_paths, salt = item
     if kind == "rand":
         prog, uses_take, shape = cf.gen_program(arg, max_depth=5, max_stmts=80)
+        if arg % 4 == 2:
+            # the whole program as the body of one function: its variables are locals, its functions are
+            # closures over their siblings, every construct runs below a function frame
+            prog = [('fn', 'wrap0', [], None, prog), ('expr', ('call', 'wrap0', []))]
+            shape = ["wrapped"] + shape
     else:
         prog, uses_take, shape = arg
     paths, dropped = cf.enumerate_paths(prog, uses_take, max_dec, max_runs=3000)
@@ -162,7 +167,8 @@ def run(ctx):
                 "break/continue/return at the innermost level; from-loop matrix to|through x step x counter kind x "
                 "bounds x exit; sys-prec: every well-typed pair of binary/unary operators in both groupings, printed "
                 "with the fewest parentheses) + seeded random programs (depth<=5, <=80 statements, every second one "
-                "printed with minimal parentheses so the real parser decides the grouping); each program is run once per "
+                "printed with minimal parentheses so the real parser decides the grouping, every fourth one wrapped "
+                "whole into a function body); each program is run once per "
                 "driver outcome vector (all vectors up to %d decisions, capped at %d per program). evaluations = "
                 "executions of the real binary compared line-by-line with the model. Non-trivial/distinct = distinct "
                 "construct-shape of a program that contains a loop and produced a comparable run."
